@@ -29,7 +29,7 @@ TIERS = {
                    texts='{"P", "Q"}', items=4, feeds=2)],
     "thorough": [dict(names='{"a", "b", "a_1"}', contents="cContents", points='{"p", "q", "zz"}',
                       texts='{"P", "Q"}', items=4, feeds=3),
-                 dict(names='{"a", "a_1", "a_2", "a_1_1"}', contents="cContentsSmall", points='{"p"}',
+                 dict(names='{"a", "a_1", "a_1_1"}', contents="cContentsSmall", points='{"p"}',
                       texts='{"P"}', items=5, feeds=2),
                  dict(names='{"a", "b"}', contents="cContentsSmall", points='{"p", "q"}',
                       texts='{"P", "Q"}', items=5, feeds=3)],
